@@ -25,11 +25,12 @@ messages, a message pattern otherwise.  `sig` = kind + ":" + site is what classe
 """
 import os
 import re
+import shutil
 import subprocess
 from concurrent.futures import ThreadPoolExecutor
 
 ANSI = re.compile(r"\x1b\[[0-9;]*m")
-TIMEOUT = int(os.environ.get("C07_TIMEOUT", "30"))      # seconds of wall time = "hangs" (property text); see load_factor()
+TIMEOUT = int(os.environ.get("C07_TIMEOUT", "30"))      # seconds = "hangs" (property text): CPU seconds, see Runner._cmd
 INTERNAL_PHRASES = ["bug of the erg compiler", "bug of erg compiler", "this is a bug", "bug of erg"]
 MAGIC_311 = "3495"      # `--py-magic-num 3495` = what the default detection finds for python3.11; saves three python
                         # subprocesses per compile (a sample is also compiled without it)
@@ -168,6 +169,11 @@ def opt_level_tie(repo):
         return False
 
 
+def _cpu_limit():
+    import resource
+    resource.setrlimit(resource.RLIMIT_CPU, (TIMEOUT, TIMEOUT + 5))
+
+
 class Runner:
     def __init__(self, erg_bin, erg_env, workdir, repo, levels=(0, 3), workers=16, fast_magic=True):
         self.erg, self.work, self.repo = erg_bin, workdir, repo
@@ -185,17 +191,43 @@ class Runner:
         os.makedirs(workdir, exist_ok=True)
 
     def _cmd(self, what, args, path):
-        t0 = None
         import time
         t0 = time.time()
         try:
-            p = subprocess.run([self.erg] + args + [path], env=self.env, capture_output=True, timeout=self.timeout,
-                               cwd=os.path.dirname(path))
+            # the hang limit as CPU time (independent of the machine load): SIGXCPU after TIMEOUT seconds of CPU;
+            # the wall-clock limit (scaled by the load) only catches a process that sleeps forever
+            p = subprocess.run([self.erg] + args + [path], env=self.env, capture_output=True, timeout=self.timeout * 3,
+                               cwd=os.path.dirname(path), preexec_fn=_cpu_limit)
             text = (p.stdout + p.stderr).decode("utf-8", "replace")
+            if p.returncode == -24:      # SIGXCPU
+                return classify(self.repo, what, None, text, True, time.time() - t0)
             return classify(self.repo, what, p.returncode, text, False, time.time() - t0)
         except subprocess.TimeoutExpired as e:
             text = ((e.stdout or b"") + (e.stderr or b"")).decode("utf-8", "replace")
             return classify(self.repo, what, None, text, True, time.time() - t0)
+
+    def overflow_site(self, args, path):
+        """a stack overflow prints no location: rerun the command under gdb and name the recursion by the distinct
+        functions that occur at least three times in the innermost 60 frames (sorted, crate path stripped).
+        '' when gdb is not available."""
+        if not shutil.which("gdb"):
+            return ""
+        try:
+            p = subprocess.run(["gdb", "-batch", "-ex", "set pagination off", "-ex", "run", "-ex", "bt 60", "--args", self.erg] + args + [path],
+                               env=self.env, capture_output=True, timeout=max(300, self.timeout * 4), cwd=os.path.dirname(path))
+        except (subprocess.TimeoutExpired, OSError):
+            return ""
+        names = {}
+        for line in p.stdout.decode("utf-8", "replace").splitlines():
+            for _ in range(4):
+                line = re.sub(r"<[^<>]*>", "", line)          # generic arguments
+            m = re.match(r"^#(\d+)\s+(?:0x[0-9a-f]+ in )?([^\s(]+)", line)
+            if m and int(m.group(1)) >= 2:
+                parts = [x for x in m.group(2).split("::") if x]
+                n = "::".join(parts[-2:])
+                names[n] = names.get(n, 0) + 1
+        # the members of the recursion cycle occur again and again; the few innermost leaf frames do not
+        return "+".join(sorted(n for n, k in names.items() if k >= 3))[:300]
 
     def run_one(self, name, src, levels=None, default_magic=False):
         levels = self.levels if levels is None else levels
@@ -216,6 +248,13 @@ class Runner:
                 break
             outs.append(self._cmd("compile -o %d" % lv, ["compile", "-o", str(lv)] + magic, path))
         self.commands += len(outs)
+        for o in outs:
+            if o.kind == "signal" and o.site == "stack-overflow":
+                argv = o.cmd.split()
+                extra = ["--py-magic-num", MAGIC_311] if (argv[0] == "compile" and magic) else []
+                site = self.overflow_site(argv + extra, path)
+                if site:
+                    o.site = "stack-overflow:" + site
         for f in os.listdir(d):
             try:
                 os.remove(os.path.join(d, f))
